@@ -5,6 +5,7 @@ import (
 	"go/constant"
 	"go/token"
 	"go/types"
+	"math/big"
 	"sort"
 	"strings"
 
@@ -634,6 +635,123 @@ func ruleCMP14(c *Ctx) []Ob {
 					}
 				}
 			}
+		}
+	}
+	// ... and every field that reaches the naming step takes its name: from the loop header, the next
+	// field is reached only through the record, through the edge on which the name was found taken already,
+	// through a call that hands the record on (the embedded struct's own walk, the recorder for a nil
+	// pointer), or for a field that is skipped as unexported. `if omitempty && isEmpty { continue }` BEFORE
+	// the record lets an omitted empty field stop hiding the promoted one.
+	for _, fn := range c.LibFuncs {
+		if c.pkgRel(fn) != "internal" || fn.Parent() != nil {
+			continue
+		}
+		var rec *ssa.Parameter
+		var recBlocks = map[*ssa.BasicBlock]bool{}
+		for _, b := range fn.Blocks {
+			for _, in := range b.Instrs {
+				if mu, ok := in.(*ssa.MapUpdate); ok {
+					if p, isP := mu.Map.(*ssa.Parameter); isP {
+						if mt, isM := p.Type().Underlying().(*types.Map); isM {
+							if bt, isB := mt.Elem().Underlying().(*types.Basic); isB && bt.Info()&types.IsInteger != 0 {
+								rec = p
+								recBlocks[b] = true
+							}
+						}
+					}
+				}
+			}
+		}
+		if rec == nil {
+			continue
+		}
+		var h *ssa.BasicBlock
+		for b := range recBlocks {
+			h, _ = c.innermostLoop(b)
+		}
+		if h == nil {
+			continue
+		}
+		// blocks that settle the obligation: the record, a call passing the record on
+		settle := map[*ssa.BasicBlock]bool{}
+		for b := range recBlocks {
+			settle[b] = true
+		}
+		allCalls(fn, func(ci ssa.CallInstruction) {
+			for _, a := range ci.Common().Args {
+				if a == ssa.Value(rec) {
+					settle[ci.Block()] = true
+				}
+			}
+		})
+		// edges after which a field may be left without a record: the name found in the record (ok flag of the
+		// lookup, true branch), the field unexported (PkgPath found not empty)
+		excuse := map[edge]bool{}
+		ifEdges(fn, func(cond ssa.Value, e edge) {
+			switch x := cond.(type) {
+			case *ssa.Extract:
+				if lk, ok := x.Tuple.(*ssa.Lookup); ok && lk.X == ssa.Value(rec) && x.Index == 1 && e.Branch {
+					excuse[e] = true
+				}
+			case *ssa.BinOp:
+				if x.Op != token.EQL && x.Op != token.NEQ {
+					return
+				}
+				for _, pair := range [][2]ssa.Value{{x.X, x.Y}, {x.Y, x.X}} {
+					k, isK := pair[1].(*ssa.Const)
+					if !isK || k.Value == nil || k.Value.Kind() != constant.String || constant.StringVal(k.Value) != "" {
+						continue
+					}
+					isPkgPath := false
+					if _, f, nm := fieldLoad(pair[0]); f == "PkgPath" && nm != nil && nm.Obj().Name() == "StructField" {
+						isPkgPath = true
+					}
+					if isPkgPath && e.Branch == (x.Op == token.NEQ) {
+						excuse[e] = true
+					}
+				}
+			}
+		})
+		n++
+		key := c.fname(fn) + "/every field that reaches the naming step takes its name"
+		leak := ""
+		type st struct {
+			b  *ssa.BasicBlock
+			ex bool
+		}
+		seenS := map[st]bool{}
+		_, body := c.innermostLoop(h)
+		var walkB func(b *ssa.BasicBlock, first, ex bool)
+		walkB = func(b *ssa.BasicBlock, first, ex bool) {
+			if leak != "" || settle[b] {
+				return
+			}
+			if !first && b == h {
+				if !ex {
+					leak = "x"
+				}
+				return
+			}
+			if seenS[st{b, ex}] {
+				return
+			}
+			seenS[st{b, ex}] = true
+			isIf := false
+			if len(b.Instrs) > 0 {
+				_, isIf = b.Instrs[len(b.Instrs)-1].(*ssa.If)
+			}
+			for i, sb := range b.Succs {
+				if body != nil && !body[sb] {
+					continue // leaving the loop is not the next field
+				}
+				walkB(sb, false, ex || (isIf && excuse[edge{b, i == 0}]))
+			}
+		}
+		walkB(h, true, false)
+		if leak == "" {
+			o.add(OK, key, relPath(c, fn.Pos()), "the next field is reached only through the record, the name found taken, a call that hands the record on, or for an unexported field")
+		} else {
+			o.add(VIOLATED, key, relPath(c, fn.Pos()), "the walk can move on to the next field without the field at hand having recorded its name (and without the name having been found taken): an empty field tagged omitempty that is skipped BEFORE the record stops hiding the field of the same name promoted from an embedded struct - struct{ Base; Owner string `clover:\",omitempty\"` } with Base.Owner set and an empty Owner converts to a document with Owner (Go and encoding/json hide it), and Unmarshal puts the value into the outer field")
 		}
 	}
 	if n == 0 {
@@ -1911,23 +2029,176 @@ func ruleCOD6(c *Ctx) []Ob {
 		}
 		n++
 		key := c.fname(fn) + "/the zone offset decoded by the time package is not taken on trust"
-		rezones := false
+		// the time is moved to a zone whose offset is computed from the encoded bytes (a load of an element of a
+		// byte slice among the leaves of the arithmetic), not to the offset the decoder has just produced
+		rezones, fromDecoded := false, false
+		extraGuard := ""
 		for g := range c.staticReach(fn) {
 			allCalls(g, func(ci ssa.CallInstruction) {
-				if calleeFullName(ci) == "time.FixedZone" {
+				if calleeFullName(ci) != "time.FixedZone" || len(ci.Common().Args) < 2 {
+					return
+				}
+				fromBytes, fromZone := false, false
+				seenV := map[ssa.Value]bool{}
+				var walk func(v ssa.Value, d int)
+				walk = func(v ssa.Value, d int) {
+					if v == nil || d > 12 || seenV[v] {
+						return
+					}
+					seenV[v] = true
+					switch x := v.(type) {
+					case *ssa.BinOp:
+						walk(x.X, d+1)
+						walk(x.Y, d+1)
+					case *ssa.Convert:
+						walk(x.X, d+1)
+					case *ssa.ChangeType:
+						walk(x.X, d+1)
+					case *ssa.Phi:
+						for _, e := range x.Edges {
+							walk(e, d+1)
+						}
+					case *ssa.UnOp:
+						if ia, ok := x.X.(*ssa.IndexAddr); ok && x.Op == token.MUL {
+							if sl, ok := ia.X.Type().Underlying().(*types.Slice); ok {
+								if bt, ok := sl.Elem().Underlying().(*types.Basic); ok && bt.Kind() == types.Uint8 {
+									fromBytes = true
+								}
+							}
+						} else {
+							walk(x.X, d+1)
+						}
+					case *ssa.Extract:
+						if cl, ok := x.Tuple.(*ssa.Call); ok {
+							switch calleeFullName(cl) {
+							case "(time.Time).Zone":
+								fromZone = true
+							default:
+								// a library helper computing the offset from the bytes it is given
+								if h := staticCallee(cl); h != nil && c.IsLib(c.declared(h)) {
+									for _, ret := range returnsOf(c.declared(h)) {
+										if rv, has := returnedValue(ret, x.Index); has {
+											walk(rv, d+1)
+										}
+									}
+								}
+							}
+						}
+					case *ssa.Call:
+						if calleeFullName(x) == "(time.Time).Zone" {
+							fromZone = true
+						} else if h := staticCallee(x); h != nil && c.IsLib(c.declared(h)) {
+							for _, ret := range returnsOf(c.declared(h)) {
+								if rv, has := returnedValue(ret, 0); has {
+									walk(rv, d+1)
+								}
+							}
+						}
+					case *ssa.Parameter:
+						// a helper's parameter: what its callers pass
+						hp := x.Parent()
+						for i, p := range hp.Params {
+							if p != x {
+								continue
+							}
+							for _, cs := range c.staticCallers(hp) {
+								if i < len(cs.Common().Args) {
+									walk(cs.Common().Args[i], d+1)
+								}
+							}
+						}
+					}
+				}
+				walk(ci.Common().Args[1], 0)
+				// the correction is made whenever the two offsets differ: the conditions it sits behind look at
+				// the error, the length, the version byte (element 0) and the offsets - at no other byte of the
+				// encoding (a test of the minutes' high byte skips the offsets between -59 and -1 seconds)
+				g := ci.Parent()
+				for _, dc := range dominatingConds(g, ci.Block()) {
+					var leaves []ssa.Value
+					var collect func(v ssa.Value, d int)
+					collect = func(v ssa.Value, d int) {
+						if v == nil || d > 8 {
+							return
+						}
+						switch x := v.(type) {
+						case *ssa.BinOp:
+							collect(x.X, d+1)
+							collect(x.Y, d+1)
+						case *ssa.Convert:
+							collect(x.X, d+1)
+						case *ssa.UnOp:
+							if _, isIA := x.X.(*ssa.IndexAddr); isIA {
+								leaves = append(leaves, x)
+							} else {
+								collect(x.X, d+1)
+							}
+						}
+					}
+					collect(dc.cond, 0)
+					for _, lf := range leaves {
+						ld := lf.(*ssa.UnOp)
+						ia := ld.X.(*ssa.IndexAddr)
+						sl, isSl := ia.X.Type().Underlying().(*types.Slice)
+						if !isSl {
+							continue
+						}
+						if bt, ok := sl.Elem().Underlying().(*types.Basic); !ok || bt.Kind() != types.Uint8 {
+							continue
+						}
+						// which element? part of the offset computation compared with the decoded one is fine
+						if idx, isK := constInt(ia.Index); isK && idx == 0 {
+							continue
+						}
+						// the comparison decoded != offset contains byte loads too: accept conditions that also involve Zone()
+						involvesZone := false
+						var z func(v ssa.Value, d int)
+						z = func(v ssa.Value, d int) {
+							if v == nil || d > 10 || involvesZone {
+								return
+							}
+							switch x := v.(type) {
+							case *ssa.BinOp:
+								z(x.X, d+1)
+								z(x.Y, d+1)
+							case *ssa.Convert:
+								z(x.X, d+1)
+							case *ssa.Extract:
+								if cl, ok := x.Tuple.(*ssa.Call); ok && calleeFullName(cl) == "(time.Time).Zone" {
+									involvesZone = true
+								}
+							case *ssa.Phi:
+								for _, e := range x.Edges {
+									z(e, d+1)
+								}
+							}
+						}
+						z(dc.cond, 0)
+						if !involvesZone {
+							extraGuard = relPath(c, ld.Pos())
+						}
+					}
+				}
+				if fromBytes && !fromZone {
 					rezones = true
+				}
+				if fromZone {
+					fromDecoded = true
 				}
 			})
 		}
+		_ = fromDecoded
 		switch {
 		case !inspected:
 			o.add(UNDECIDED, key, relPath(c, dec.Pos()), "the body of (*time.Time).UnmarshalBinary was not loaded")
 		case !buggy:
 			o.add(OK, key, relPath(c, dec.Pos()), "the time package this program is built with does not add the seconds of the offset as an unsigned byte")
+		case rezones && extraGuard != "":
+			o.add(VIOLATED, key, extraGuard, "the correction of the decoded zone offset is made only behind a test of another byte of the encoding: the minutes of the offset carry its sign only from one minute on, so for an offset between -59 and -1 seconds (minutes 0, seconds -N) a guard on the minutes' high byte skips the correction, and the time is read back at 256-N seconds east")
 		case rezones:
-			o.add(OK, key, relPath(c, dec.Pos()), "the time package adds the seconds of the offset unsigned; the function re-zones the decoded time (time.FixedZone)")
+			o.add(OK, key, relPath(c, dec.Pos()), "the time package adds the seconds of the offset unsigned; the function re-zones the decoded time (time.FixedZone) to an offset computed from the encoded bytes")
 		default:
-			o.add(VIOLATED, key, relPath(c, dec.Pos()), "the time package this program is built with reads the seconds of a zone offset (binary encoding version 2) as an unsigned byte, and the decoded time is used as it is: a time at -4:56:02 (America/New_York before 1883) is read back at -4:51:46 - the same instant with another zone offset")
+			o.add(VIOLATED, key, relPath(c, dec.Pos()), "the time package this program is built with reads the seconds of a zone offset (binary encoding version 2) as an unsigned byte, and the decoded time is used as it is (or moved to a zone computed from the decoded offset itself rather than from the encoded bytes): a time at -4:56:02 (America/New_York before 1883) is read back at -4:51:46 - the same instant with another zone offset")
 		}
 	}
 	if n == 0 {
@@ -2110,7 +2381,7 @@ func ruleGUARD3(c *Ctx) []Ob {
 				}
 				n++
 				key := c.fname(fn) + "/the field of a new index is free of the separator"
-				if guardedBy(fn, b, freeEdges(fn, src)) {
+				if guardedBy(fn, b, c.validatedEdges(fn, src, freeEdges, 0)) {
 					o.add(OK, key, relPath(c, st.Pos()), "recorded only where the name was found free of ';'")
 				} else {
 					o.add(VIOLATED, key, relPath(c, st.Pos()), "the caller's field name becomes a ';'-terminated part of the index keys without having been found free of ';': the entries of an index on \"x;y\" (c:coll;i:x;y;t:...) lie inside the prefix of the index on \"x\" (c:coll;i:x;) - a scan of x yields every document twice, UpdateFunc runs twice on each, Delete through it drives the counter negative, and DropIndex(x) empties the other index")
@@ -2122,41 +2393,61 @@ func ruleGUARD3(c *Ctx) []Ob {
 	// the catalog writer, by role: a function of the root package given a name and a pointer to a struct, which
 	// marshals the struct (encoding/json) and puts it into the store
 	var savers []*ssa.Function
-	for _, fn := range c.LibFuncs {
-		if c.pkgRel(fn) != "" || fn.Parent() != nil {
-			continue
-		}
-		var sp, mp *ssa.Parameter
+	for _, fn := range c.Roles().MetaWriters {
+		// those with a name and a pointer-to-struct parameter
+		hasS, hasP := false, false
 		for _, p := range fn.Params {
-			if isStringType(p.Type()) && sp == nil {
-				sp = p
+			if isStringType(p.Type()) {
+				hasS = true
 			}
 			if pt, ok := p.Type().Underlying().(*types.Pointer); ok {
 				if nn, ok := pt.Elem().(*types.Named); ok {
-					if _, isS := nn.Underlying().(*types.Struct); isS && nn.Obj().Pkg() != nil && nn.Obj().Pkg().Path() == c.ModPath {
-						mp = p
+					if _, isS := nn.Underlying().(*types.Struct); isS && nn.Obj().Pkg() != nil && nn.Obj().Pkg().Path() == c.ModPath && p != fn.Params[0] {
+						hasP = true
 					}
 				}
 			}
 		}
-		if sp == nil || mp == nil {
-			continue
-		}
-		marshals, sets := false, false
-		allCalls(fn, func(ci ssa.CallInstruction) {
-			if calleeFullName(ci) == "encoding/json.Marshal" && len(ci.Common().Args) == 1 {
-				for _, og := range origins(ci.Common().Args[0]) {
-					if og == ssa.Value(mp) {
-						marshals = true
-					}
-				}
-			}
-			if ci.Common().IsInvoke() && ci.Common().Method != nil && ci.Common().Method.Name() == "Set" {
-				sets = true
-			}
-		})
-		if marshals && sets {
+		if hasS && hasP && fn.Parent() == nil {
 			savers = append(savers, fn)
+		}
+	}
+	// wrappers that hand their own name and struct parameters on to a catalog writer are catalog writers too
+	for changed, rounds := true, 0; changed && rounds < 3; rounds++ {
+		changed = false
+		isSaver := map[*ssa.Function]bool{}
+		for _, sv := range savers {
+			isSaver[sv] = true
+		}
+		for _, fn := range c.LibFuncs {
+			if c.pkgRel(fn) != "" || fn.Parent() != nil || isSaver[fn] {
+				continue
+			}
+			forwards := false
+			allCalls(fn, func(ci ssa.CallInstruction) {
+				g := staticCallee(ci)
+				if g == nil || !isSaver[c.declared(g)] {
+					return
+				}
+				strP, ptrP := false, false
+				for _, a := range ci.Common().Args {
+					if p, ok := a.(*ssa.Parameter); ok && p.Parent() == fn {
+						if isStringType(p.Type()) {
+							strP = true
+						}
+						if _, isPtr := p.Type().Underlying().(*types.Pointer); isPtr && p != fn.Params[0] {
+							ptrP = true
+						}
+					}
+				}
+				if strP && ptrP {
+					forwards = true
+				}
+			})
+			if forwards {
+				savers = append(savers, fn)
+				changed = true
+			}
 		}
 	}
 	for _, save := range savers {
@@ -2197,7 +2488,7 @@ func ruleGUARD3(c *Ctx) []Ob {
 			}
 			n++
 			key := c.fname(fn) + "/the name of a new collection is free of the separator"
-			if guardedBy(fn, cs.Block(), freeEdges(fn, name)) {
+			if guardedBy(fn, cs.Block(), c.validatedEdges(fn, name, freeEdges, 0)) {
 				o.add(OK, key, relPath(c, cs.Pos()), "the catalog record of a new collection is written only where the name was found free of ';'")
 			} else {
 				o.add(VIOLATED, key, relPath(c, cs.Pos()), "the catalog record of a new collection is written without the name having been found free of ';': the documents of a collection \"a;d:b\" (c:a;d:b;d:<id>) lie inside the document prefix of \"a\" (c:a;d:) - FindAll(\"a\") returns them, Update(\"a\") writes them into a, Delete leaves them behind and drives the counter negative, DropIndex(\"c\", \"x\") deletes the documents of \"c;i:x\"")
@@ -2207,6 +2498,1276 @@ func ruleGUARD3(c *Ctx) []Ob {
 	if n == 0 {
 		o.add(UNDECIDED, "names", "-", "neither the record of a new index field nor the catalog record of a new collection was recognised")
 		return softenUndecided(o.list)
+	}
+	return o.list
+}
+
+// ---------------------------------------------------------------- IDX11
+
+// IDX11: removing an index from the catalog removes exactly the entry that was looked for.
+// The function that searches the list of index descriptions for a field name (a loop
+// comparing x[i].Field with a parameter) and then rewrites the list is interpreted on
+// lists of one, two and three entries, for every position of the entry found: element
+// stores, re-slicing and append() are executed on a model of Go's slices (a backing
+// array and views into it). The list written back must hold every other entry once and
+// the found one not at all. `s[0] = s[j]; s = s[1:]` (the two sides of `s[j] = s[0]`
+// swapped) keeps the dropped index in the catalog and loses the first one.
+func ruleIDX11(c *Ctx) []Ob {
+	o := newObs(c, "IDX11")
+	n := 0
+	for _, fn := range c.LibFuncs {
+		if c.pkgRel(fn) != "" || fn.Parent() != nil {
+			continue
+		}
+		// the search: x[i].Field == parameter
+		var counter ssa.Value
+		var listField string
+		var listOwner *types.Named
+		for _, b := range fn.Blocks {
+			for _, in := range b.Instrs {
+				bo, ok := in.(*ssa.BinOp)
+				if !ok || bo.Op != token.EQL {
+					continue
+				}
+				for _, pair := range [][2]ssa.Value{{bo.X, bo.Y}, {bo.Y, bo.X}} {
+					if _, isP := pair[1].(*ssa.Parameter); !isP {
+						continue
+					}
+					ld, ok := pair[0].(*ssa.UnOp)
+					if !ok || ld.Op != token.MUL {
+						continue
+					}
+					fa, ok := ld.X.(*ssa.FieldAddr)
+					if !ok {
+						continue
+					}
+					if _, f, nm := fieldOfAddr(fa); f != "Field" || nm == nil || !c.libNamedIs(nm, "index", "Info") {
+						continue
+					}
+					ia, ok := fa.X.(*ssa.IndexAddr)
+					if !ok {
+						continue
+					}
+					if _, lf, ln := fieldLoad(ia.X); lf != "" && ln != nil {
+						counter, listField, listOwner = ia.Index, lf, ln
+					}
+				}
+			}
+		}
+		if counter == nil {
+			continue
+		}
+		isList := func(v ssa.Value) bool {
+			_, f, nn := fieldLoad(v)
+			return f == listField && nn == listOwner
+		}
+		var isVictimD func(v ssa.Value, d int, seen map[ssa.Value]bool) bool
+		isVictimD = func(v ssa.Value, d int, seen map[ssa.Value]bool) bool {
+			if v == counter {
+				return true
+			}
+			if d > 4 || seen[v] {
+				return false
+			}
+			seen[v] = true
+			if phi, ok := v.(*ssa.Phi); ok {
+				for _, e := range phi.Edges {
+					if isVictimD(e, d+1, seen) {
+						return true
+					}
+				}
+			}
+			return false
+		}
+		isVictim := func(v ssa.Value) bool { return isVictimD(v, 0, map[ssa.Value]bool{}) }
+		// the rewriting instructions: element stores into the list, stores of the field
+		var rew []ssa.Instruction
+		var rewBlock *ssa.BasicBlock
+		straight := true
+		for _, b := range fn.Blocks {
+			if c.inLoop(b) {
+				continue
+			}
+			for _, in := range b.Instrs {
+				st, ok := in.(*ssa.Store)
+				if !ok {
+					continue
+				}
+				touches := false
+				if ia, ok := st.Addr.(*ssa.IndexAddr); ok && isList(ia.X) {
+					touches = true
+				}
+				if _, f, nn := fieldOfAddr(st.Addr); f == listField && nn == listOwner {
+					// only rewrites that derive from the list itself (not the allocation of an empty list)
+					touches = false
+					for _, og := range origins(st.Val) {
+						switch x := og.(type) {
+						case *ssa.Slice:
+							if isList(x.X) {
+								touches = true
+							}
+						case *ssa.Call:
+							if bi, isB := x.Call.Value.(*ssa.Builtin); isB && bi.Name() == "append" {
+								touches = true
+							}
+						}
+					}
+				}
+				if touches {
+					if rewBlock != nil && rewBlock != b {
+						straight = false
+					}
+					rewBlock = b
+					rew = append(rew, st)
+				}
+			}
+		}
+		// append-to-list in createIndex (appending a new description) is not a removal: require a victim use
+		usesVictim := false
+		for _, in := range rew {
+			var walk func(v ssa.Value, d int)
+			walk = func(v ssa.Value, d int) {
+				if v == nil || d > 6 || usesVictim {
+					return
+				}
+				if isVictim(v) {
+					usesVictim = true
+					return
+				}
+				switch x := v.(type) {
+				case *ssa.IndexAddr:
+					walk(x.Index, d+1)
+					walk(x.X, d+1)
+				case *ssa.UnOp:
+					walk(x.X, d+1)
+				case *ssa.BinOp:
+					walk(x.X, d+1)
+					walk(x.Y, d+1)
+				case *ssa.Slice:
+					walk(x.Low, d+1)
+					walk(x.High, d+1)
+					walk(x.X, d+1)
+				case *ssa.Call:
+					for _, a := range x.Call.Args {
+						walk(a, d+1)
+					}
+				}
+			}
+			st := in.(*ssa.Store)
+			walk(st.Addr, 0)
+			walk(st.Val, 0)
+		}
+		if len(rew) == 0 || !usesVictim {
+			continue
+		}
+		n++
+		key := c.fname(fn) + "/the catalog loses exactly the index that was looked for"
+		if !straight {
+			o.add(UNDECIDED, key, relPath(c, rew[0].Pos()), "the list is rewritten in several basic blocks: not interpreted")
+			continue
+		}
+		// ---- the interpreter
+		type view struct{ off, ln int }
+		bad := ""
+		for size := 1; size <= 3 && bad == ""; size++ {
+			for j := 0; j < size && bad == ""; j++ {
+				back := make([]int, size, size+4) // symbols 0..size-1
+				for i := range back {
+					back[i] = i
+				}
+				cur := view{0, size}
+				views := map[ssa.Value]view{}
+				loadedAt := map[*ssa.UnOp]int{}
+				fail := ""
+				var evalInt func(v ssa.Value, d int) (int, bool)
+				var evalView func(v ssa.Value, d int) (view, bool)
+				evalInt = func(v ssa.Value, d int) (int, bool) {
+					if d > 8 {
+						return 0, false
+					}
+					if isVictim(v) {
+						return j, true
+					}
+					if k, ok := constInt(v); ok {
+						return int(k), true
+					}
+					switch x := v.(type) {
+					case *ssa.BinOp:
+						a, ok1 := evalInt(x.X, d+1)
+						bb, ok2 := evalInt(x.Y, d+1)
+						if !ok1 || !ok2 {
+							return 0, false
+						}
+						switch x.Op {
+						case token.ADD:
+							return a + bb, true
+						case token.SUB:
+							return a - bb, true
+						}
+					case *ssa.Call:
+						if bi, isB := x.Call.Value.(*ssa.Builtin); isB && bi.Name() == "len" {
+							if vw, ok := evalView(x.Call.Args[0], d+1); ok {
+								return vw.ln, true
+							}
+						}
+					case *ssa.Convert:
+						return evalInt(x.X, d+1)
+					}
+					return 0, false
+				}
+				evalView = func(v ssa.Value, d int) (view, bool) {
+					if d > 8 {
+						return view{}, false
+					}
+					if vw, ok := views[v]; ok {
+						return vw, true
+					}
+					if isList(v) {
+						return cur, true // refined below: loads are bound when first met in order
+					}
+					if sl, ok := v.(*ssa.Slice); ok {
+						base, ok := evalView(sl.X, d+1)
+						if !ok {
+							return view{}, false
+						}
+						lo, hi := 0, base.ln
+						if sl.Low != nil {
+							if lo, ok = evalInt(sl.Low, d+1); !ok {
+								return view{}, false
+							}
+						}
+						if sl.High != nil {
+							if hi, ok = evalInt(sl.High, d+1); !ok {
+								return view{}, false
+							}
+						}
+						if lo < 0 || hi < lo || base.off+hi > cap(back) {
+							return view{}, false
+						}
+						return view{base.off + lo, hi - lo}, true
+					}
+					return view{}, false
+				}
+				// bind every load of the list field, in instruction order, to the view current at that point
+				for _, in := range rewBlock.Instrs {
+					if v, ok := in.(ssa.Value); ok && isList(v) {
+						views[v] = cur
+					}
+					// an element load: remember what the slot held at that moment
+					if ld, isLd := in.(*ssa.UnOp); isLd && ld.Op == token.MUL {
+						if sia, isIA := ld.X.(*ssa.IndexAddr); isIA {
+							if sv, okA := evalView(sia.X, 0); okA {
+								if si, okB := evalInt(sia.Index, 0); okB && si >= 0 && si < sv.ln {
+									full := back[:cap(back)]
+									loadedAt[ld] = full[sv.off+si]
+								}
+							}
+						}
+					}
+					st, isSt := in.(*ssa.Store)
+					if !isSt {
+						continue
+					}
+					isRew := false
+					for _, r := range rew {
+						if r == in {
+							isRew = true
+						}
+					}
+					if !isRew {
+						continue
+					}
+					if ia, ok := st.Addr.(*ssa.IndexAddr); ok {
+						vw, ok1 := evalView(ia.X, 0)
+						idx, ok2 := evalInt(ia.Index, 0)
+						// the value: a load of an element
+						var sym int
+						ok3 := false
+						if ld, isLd := st.Val.(*ssa.UnOp); isLd && ld.Op == token.MUL {
+							if sia, isIA := ld.X.(*ssa.IndexAddr); isIA {
+								sv, okA := evalView(sia.X, 0)
+								si, okB := evalInt(sia.Index, 0)
+								if okA && okB && si >= 0 && si < sv.ln {
+									// the element as it was when loaded: loads precede the store in the block, and no
+									// earlier rewriting store can have changed it unless it targeted that slot; use the
+									// snapshot taken at load time
+									sym, ok3 = back[sv.off+si], true
+									if s0, had := loadedAt[ld]; had {
+										sym = s0
+									}
+								}
+							}
+						}
+						if !ok1 || !ok2 || !ok3 || idx < 0 || idx >= vw.ln {
+							fail = "an element store the interpreter does not follow"
+							break
+						}
+						back = back[:cap(back)]
+						back[vw.off+idx] = sym
+						continue
+					}
+					// a store of the field
+					done := false
+					for _, og := range origins(st.Val) {
+						switch x := og.(type) {
+						case *ssa.Slice:
+							if vw, ok := evalView(x, 0); ok {
+								cur, done = vw, true
+							}
+						case *ssa.Call:
+							if bi, isB := x.Call.Value.(*ssa.Builtin); isB && bi.Name() == "append" && len(x.Call.Args) == 2 {
+								a, ok1 := evalView(x.Call.Args[0], 0)
+								bv, ok2 := evalView(x.Call.Args[1], 0)
+								if ok1 && ok2 && a.off+a.ln+bv.ln <= cap(back) {
+									back = back[:cap(back)]
+									tmp := append([]int(nil), back[bv.off:bv.off+bv.ln]...)
+									copy(back[a.off+a.ln:], tmp)
+									cur, done = view{a.off, a.ln + bv.ln}, true
+								}
+							}
+						}
+					}
+					if !done {
+						fail = "a rewrite of the list the interpreter does not follow"
+						break
+					}
+				}
+				if fail != "" {
+					bad = "?" + fail
+					break
+				}
+				back = back[:cap(back)]
+				got := map[int]int{}
+				for i := 0; i < cur.ln; i++ {
+					got[back[cur.off+i]]++
+				}
+				okRes := cur.ln == size-1
+				for s := 0; s < size; s++ {
+					want := 1
+					if s == j {
+						want = 0
+					}
+					if got[s] != want {
+						okRes = false
+					}
+				}
+				if !okRes {
+					var res []string
+					for i := 0; i < cur.ln; i++ {
+						res = append(res, fmt.Sprintf("e%d", back[cur.off+i]))
+					}
+					bad = fmt.Sprintf("with %d indexes e0..e%d and the one looked for at position %d the list written back is [%s]", size, size-1, j, strings.Join(res, " "))
+				}
+			}
+		}
+		switch {
+		case bad == "":
+			o.add(OK, key, relPath(c, rew[0].Pos()), "interpreted on lists of 1, 2 and 3 entries for every position of the entry found: every other entry is kept once, the found one is gone")
+		case strings.HasPrefix(bad, "?"):
+			o.add(UNDECIDED, key, relPath(c, rew[0].Pos()), "%s", bad[1:])
+		default:
+			o.add(VIOLATED, key, relPath(c, rew[0].Pos()), "%s: DropIndex keeps the dropped index in the catalog (its entries are deleted: queries through it return nothing) and loses another index, whose entries stay behind unmaintained; HasIndex and ListIndexes are wrong for both, a second DropIndex succeeds instead of failing with ErrIndexNotExist", bad)
+		}
+	}
+	if n == 0 {
+		o.add(INFO, "catalog", "-", "no function searches the list of index descriptions for a field and rewrites the list")
+		return o.list
+	}
+	return softenUndecided(o.list)
+}
+
+// ---------------------------------------------------------------- ARG1
+
+// ARG1: the constructor of an index object is given the collection name where the
+// collection goes and the field name where the field goes. Both are strings, and the key
+// prefix c:<collection>;i:<field>; is built from them in that order: with the two
+// swapped, DropIndex("users", "orders") deletes the entries of the index that collection
+// "orders" has on field "users". An argument has the role "collection" if the same value
+// is handed, in the same function, to a function that loads or saves the catalog record
+// (what reaches the catalog key layout), and the role "field" if it is compared with, read
+// from or stored into index.Info.Field; an argument in the position of the one role must
+// not have the other.
+func ruleARG1(c *Ctx) []Ob {
+	o := newObs(c, "ARG1")
+	n := 0
+	for _, fn := range c.LibFuncs {
+		if c.pkgRel(fn) != "" {
+			continue
+		}
+		// field-role values of fn
+		isFieldRole := func(v ssa.Value) bool {
+			for _, og := range origins(v) {
+				if _, f, nm := fieldLoad(og); f == "Field" && nm != nil && c.libNamedIs(nm, "index", "Info") {
+					return true
+				}
+			}
+			role := false
+			for _, b := range fn.Blocks {
+				for _, in := range b.Instrs {
+					switch x := in.(type) {
+					case *ssa.BinOp:
+						if x.Op != token.EQL && x.Op != token.NEQ {
+							continue
+						}
+						for _, pair := range [][2]ssa.Value{{x.X, x.Y}, {x.Y, x.X}} {
+							if !(pair[0] == v || sameOrigin(pair[0], v)) {
+								continue
+							}
+							if _, f, nm := fieldLoad(pair[1]); f == "Field" && nm != nil && c.libNamedIs(nm, "index", "Info") {
+								role = true
+							}
+						}
+					case *ssa.Store:
+						if _, f, nm := fieldOfAddr(x.Addr); f == "Field" && nm != nil && c.libNamedIs(nm, "index", "Info") && (x.Val == v || sameOrigin(x.Val, v)) {
+							role = true
+						}
+					}
+				}
+			}
+			return role
+		}
+		// collection-role: handed to a library function of the root package whose parameter reaches the catalog key
+		// (approximated: a function with a string parameter that calls the catalog key builder on it, one level)
+		// a catalog-record function: its signature mentions a pointer to a struct of the root package that holds
+		// the list of index descriptions ([]index.Info); its string parameter is the collection name
+		holdsIndexList := func(t types.Type) bool {
+			pt, ok := t.Underlying().(*types.Pointer)
+			if !ok {
+				return false
+			}
+			st, ok := pt.Elem().Underlying().(*types.Struct)
+			if !ok {
+				return false
+			}
+			for i := 0; i < st.NumFields(); i++ {
+				if sl, ok := st.Field(i).Type().Underlying().(*types.Slice); ok && c.libNamedIs(sl.Elem(), "index", "Info") {
+					return true
+				}
+			}
+			return false
+		}
+		// ... and the parameter is what the function builds the catalog key from (a variable part of a key of
+		// the catalog layout that it reads, writes or deletes)
+		reachesCatalog := func(g *ssa.Function, idx int) bool {
+			if g == nil || idx >= len(g.Params) || !isStringType(g.Params[idx].Type()) || c.pkgRel(g) != "" {
+				return false
+			}
+			sig := false
+			for _, p := range g.Params {
+				if holdsIndexList(p.Type()) {
+					sig = true
+				}
+			}
+			res := g.Signature.Results()
+			for i := 0; i < res.Len(); i++ {
+				if holdsIndexList(res.At(i).Type()) {
+					sig = true
+				}
+			}
+			if !sig {
+				return false
+			}
+			r := c.Roles()
+			p := g.Params[idx]
+			for _, sk := range r.model.sinks {
+				if sk.Fn != g {
+					continue
+				}
+				for _, t := range sk.Tmpls {
+					if r.CatalogSkel == "" || t.skeleton() != r.CatalogSkel {
+						continue
+					}
+					for _, pt := range t {
+						if pt.V != nil && (pt.V == ssa.Value(p) || sameOrigin(pt.V, p)) {
+							return true
+						}
+					}
+				}
+			}
+			return false
+		}
+		isCollRole := func(v ssa.Value) bool {
+			role := false
+			allCalls(fn, func(ci ssa.CallInstruction) {
+				g := staticCallee(ci)
+				if g == nil || !c.IsLib(c.declared(g)) {
+					return
+				}
+				g = c.declared(g)
+				for ai, a := range ci.Common().Args {
+					if (a == v || sameOrigin(a, v)) && reachesCatalog(g, ai) {
+						role = true
+					}
+				}
+			})
+			return role
+		}
+		k := 0
+		allCalls(fn, func(ci ssa.CallInstruction) {
+			g := staticCallee(ci)
+			if g == nil || c.pkgRel(c.declared(g)) != "index" || !strings.HasPrefix(c.declared(g).Name(), "CreateIndex") {
+				return
+			}
+			args := ci.Common().Args
+			if len(args) < 2 || !isStringType(args[0].Type()) || !isStringType(args[1].Type()) {
+				return
+			}
+			n++
+			k++
+			key := fmt.Sprintf("%s/collection and field go to their own positions #%d", c.fname(fn), k)
+			switch {
+			case isFieldRole(args[0]) && !isCollRole(args[0]):
+				o.add(VIOLATED, key, relPath(c, ci.Pos()), "the first argument of %s (the collection) is a value used as an index FIELD name in this function (compared with / taken from index.Info.Field): the index object works on the keys c:<field>;i:<collection>; - DropIndex(\"users\", \"orders\") deletes the entries of the index that collection \"orders\" has on field \"users\", whose catalog still lists it", c.fname(c.declared(g)))
+			case isCollRole(args[1]) && !isFieldRole(args[1]):
+				o.add(VIOLATED, key, relPath(c, ci.Pos()), "the second argument of %s (the field) is the value this function uses as the COLLECTION name (it loads / saves the catalog record under it): collection and field are swapped in the keys of the index", c.fname(c.declared(g)))
+			default:
+				o.add(OK, key, relPath(c, ci.Pos()), "no argument has the role of the other position")
+			}
+		})
+	}
+	if n == 0 {
+		o.add(INFO, "index constructor", "-", "no call of index.CreateIndex with two string arguments")
+	}
+	return o.list
+}
+
+// ---------------------------------------------------------------- ARG2
+
+// ARG2: time.Parse is given the layout first and the text second. Both are strings; with
+// the two swapped the text of an exported `_expiresAt` is used as the layout, the parse
+// fails, the field stays a string, and the import of any collection holding an expiring
+// document is refused. The layout argument of time.Parse / ParseInLocation is a constant
+// (or a value that is not the text: never a constant in the text position with a
+// non-constant in the layout position).
+func ruleARG2(c *Ctx) []Ob {
+	o := newObs(c, "ARG2")
+	n := 0
+	for _, fn := range c.LibFuncs {
+		k := 0
+		allCalls(fn, func(ci ssa.CallInstruction) {
+			full := calleeFullName(ci)
+			if full != "time.Parse" && full != "time.ParseInLocation" {
+				return
+			}
+			args := ci.Common().Args
+			if len(args) < 2 {
+				return
+			}
+			n++
+			k++
+			key := fmt.Sprintf("%s/time.Parse is given the layout first #%d", c.fname(fn), k)
+			_, c0 := args[0].(*ssa.Const)
+			_, c1 := args[1].(*ssa.Const)
+			if !c0 && c1 {
+				o.add(VIOLATED, key, relPath(c, ci.Pos()), "%s is called with a variable as the layout and a constant as the text: the two arguments are swapped - the exported text of _expiresAt is used as the layout, the parse fails, the field stays a string, and ImportCollection refuses every collection that holds an expiring document", full)
+			} else {
+				o.add(OK, key, relPath(c, ci.Pos()), "the layout is not a variable next to a constant text")
+			}
+		})
+	}
+	if n == 0 {
+		o.add(INFO, "time.Parse", "-", "the library does not call time.Parse")
+	}
+	return o.list
+}
+
+// ---------------------------------------------------------------- PANIC7
+
+// PANIC7: a slice indexed by a loop counter is among the slices whose length bounds that
+// counter. In a loop whose condition compares the counter with len() of one or more
+// slices, an element access x[i] needs `i < len(x)` among the conditions that guard it:
+// `for i := 0; i < len(s1) && i < len(s1); i++ { ... s2[i] }` (one name for the other)
+// panics with "index out of range" as soon as the first array is longer than the second
+// - in the comparison behind every filter, sort and index range.
+func rulePANIC7(c *Ctx) []Ob {
+	o := newObs(c, "PANIC7")
+	n := 0
+	for _, fn := range c.LibFuncs {
+		k := 0
+		// edges "i < len(X)": map from counter value to the slices bounding it, with the edges
+		type bound struct {
+			x ssa.Value
+			e edge
+		}
+		bounds := map[ssa.Value][]bound{}
+		ifEdges(fn, func(cond ssa.Value, e edge) {
+			bo, ok := cond.(*ssa.BinOp)
+			if !ok {
+				return
+			}
+			var ctr ssa.Value
+			var lenCall *ssa.Call
+			var less bool // ctr < len on the true branch
+			if cl, ok := bo.Y.(*ssa.Call); ok {
+				if bi, isB := cl.Call.Value.(*ssa.Builtin); isB && bi.Name() == "len" {
+					ctr, lenCall = bo.X, cl
+					switch bo.Op {
+					case token.LSS:
+						less = true
+					case token.GEQ:
+						less = false
+					default:
+						return
+					}
+				}
+			}
+			if lenCall == nil {
+				if cl, ok := bo.X.(*ssa.Call); ok {
+					if bi, isB := cl.Call.Value.(*ssa.Builtin); isB && bi.Name() == "len" {
+						ctr, lenCall = bo.Y, cl
+						switch bo.Op {
+						case token.GTR:
+							less = true
+						case token.LEQ:
+							less = false
+						default:
+							return
+						}
+					}
+				}
+			}
+			if lenCall == nil {
+				return
+			}
+			if _, isPhi := ctr.(*ssa.Phi); !isPhi {
+				return
+			}
+			if e.Branch == less {
+				bounds[ctr] = append(bounds[ctr], bound{lenCall.Call.Args[0], e})
+			}
+		})
+		if len(bounds) == 0 {
+			continue
+		}
+		for _, b := range fn.Blocks {
+			for _, in := range b.Instrs {
+				ia, ok := in.(*ssa.IndexAddr)
+				if !ok {
+					continue
+				}
+				if _, isSl := ia.X.Type().Underlying().(*types.Slice); !isSl {
+					continue
+				}
+				bs, isCtr := bounds[ia.Index]
+				if !isCtr {
+					continue
+				}
+				// only where the access is guarded by at least one of the counter's bounds (inside that loop)
+				var guarding []bound
+				for _, bd := range bs {
+					if guardedBy(fn, b, []edge{bd.e}) {
+						guarding = append(guarding, bd)
+					}
+				}
+				if len(guarding) == 0 {
+					continue
+				}
+				n++
+				k++
+				key := fmt.Sprintf("%s/a slice indexed by the counter bounds the counter #%d", c.fname(fn), k)
+				own := false
+				for _, bd := range guarding {
+					if bd.x == ia.X || sameOrigin(bd.x, ia.X) || samePath(bd.x, ia.X, 0) {
+						own = true
+					}
+				}
+				// a slice made with the length of a bounding slice (out := make([]T, len(in)))
+				for _, og := range origins(ia.X) {
+					if mk, ok := og.(*ssa.MakeSlice); ok {
+						if lc, ok := mk.Len.(*ssa.Call); ok {
+							if bi, isB := lc.Call.Value.(*ssa.Builtin); isB && bi.Name() == "len" {
+								for _, bd := range guarding {
+									if lc.Call.Args[0] == bd.x || sameOrigin(lc.Call.Args[0], bd.x) || samePath(lc.Call.Args[0], bd.x, 0) {
+										own = true
+									}
+								}
+							}
+						}
+					}
+				}
+				if own {
+					o.add(OK, key, relPath(c, ia.Pos()), "guarded by counter < len of the same slice")
+				} else {
+					o.add(VIOLATED, key, relPath(c, ia.Pos()), "the element access is guarded by the counter being smaller than the length of OTHER slices only: as soon as this slice is the shorter one the access panics with \"index out of range\" - comparing [\"a\",\"b\",\"c\"] with its prefix [\"a\",\"b\"] (Eq, Gt, In, a sort on an array field, the emptiness test of an index range) panics instead of returning a result")
+				}
+			}
+		}
+	}
+	if n == 0 {
+		o.add(INFO, "loops", "-", "no slice is indexed by a loop counter bounded by len()")
+	}
+	return o.list
+}
+
+// ---------------------------------------------------------------- COD7
+
+// COD7: on the way back from a document to a struct, a field of the document is marked as
+// moved under the name it was FOUND under. The rename walk looks an entry up in the
+// document (fields[from]), stores it under the name encoding/json expects (renamed[to]) and
+// records it in a set so that the entry is not copied again under its old name: the
+// record made behind the found-edge of the lookup uses the lookup's key. Marking `to`
+// instead leaves the entry in the document under both names; when the old name is (up to
+// case) the json name of another field, encoding/json fills that field with it too.
+func ruleCOD7(c *Ctx) []Ob {
+	o := newObs(c, "COD7")
+	n := 0
+	for _, fn := range c.LibFuncs {
+		if c.pkgRel(fn) != "internal" {
+			continue
+		}
+		k := 0
+		for _, b := range fn.Blocks {
+			for _, in := range b.Instrs {
+				mu, ok := in.(*ssa.MapUpdate)
+				if !ok {
+					continue
+				}
+				mt, isM := mu.Map.Type().Underlying().(*types.Map)
+				if !isM {
+					continue
+				}
+				if bt, isB := mt.Elem().Underlying().(*types.Basic); !isB || bt.Kind() != types.Bool {
+					continue
+				}
+				if kt, isB := mt.Key().Underlying().(*types.Basic); !isB || kt.Kind() != types.String {
+					continue
+				}
+				// the found-edges of comma-ok lookups in maps of field values that guard this record
+				var keys []ssa.Value
+				ifEdges(fn, func(cond ssa.Value, e edge) {
+					ex, ok := cond.(*ssa.Extract)
+					if !ok || ex.Index != 1 || !e.Branch {
+						return
+					}
+					lk, ok := ex.Tuple.(*ssa.Lookup)
+					if !ok || !lk.CommaOk {
+						return
+					}
+					lm, isM := lk.X.Type().Underlying().(*types.Map)
+					if !isM {
+						return
+					}
+					if _, isI := lm.Elem().Underlying().(*types.Interface); !isI {
+						return
+					}
+					if guardedBy(fn, b, []edge{e}) {
+						keys = append(keys, lk.Index)
+					}
+				})
+				if len(keys) == 0 {
+					continue
+				}
+				n++
+				k++
+				key := fmt.Sprintf("%s/an entry is marked as moved under the name it was found under #%d", c.fname(fn), k)
+				same := false
+				for _, kv := range keys {
+					if kv == mu.Key || sameOrigin(kv, mu.Key) {
+						same = true
+					}
+				}
+				if same {
+					o.add(OK, key, relPath(c, mu.Pos()), "the record uses the key of the lookup that found the entry")
+				} else {
+					o.add(VIOLATED, key, relPath(c, mu.Pos()), "behind the lookup that found the entry the record is made under ANOTHER name (the name it is moved to): the entry stays in the document under its old name as well, and when that name is, up to case, the json name of another field of the struct, encoding/json assigns it to that field too - account{Owner `clover:\"name\"`; Name `clover:\"label\"`} {alice, savings} comes back as {alice, alice}")
+				}
+			}
+		}
+	}
+	if n == 0 {
+		o.add(INFO, "rename walk", "-", "no set of names is filled behind a lookup in a map of field values")
+	}
+	return o.list
+}
+
+// validatedEdges: the edges of fn on which src is known to have passed a check: the edges given by base, plus
+// the nil-error edge of a call err := g(..., src, ...) to a library function g every nil-error return of
+// which lies behind base's edges for its own parameter (a validator that answers with an error).
+func (c *Ctx) validatedEdges(fn *ssa.Function, src ssa.Value, base func(fn *ssa.Function, src ssa.Value) []edge, depth int) []edge {
+	out := base(fn, src)
+	if depth > 2 {
+		return out
+	}
+	same := func(v ssa.Value) bool { return v == src || sameOrigin(v, src) }
+	out = append(out, guardEdges(fn, func(cond ssa.Value, branch bool) bool {
+		x, tnil, ok := nilTest(cond)
+		if !ok || !isErrorType(x.Type()) || branch != tnil {
+			return false
+		}
+		for _, og := range origins(x) {
+			var call *ssa.Call
+			idx := 0
+			switch y := og.(type) {
+			case *ssa.Call:
+				call = y
+			case *ssa.Extract:
+				if cl, isCall := y.Tuple.(*ssa.Call); isCall {
+					call, idx = cl, y.Index
+				}
+			}
+			if call == nil {
+				return false
+			}
+			g := staticCallee(call)
+			if g == nil || !c.IsLib(c.declared(g)) {
+				return false
+			}
+			g = c.declared(g)
+			okAll := false
+			for ai, a := range call.Call.Args {
+				if !same(a) || ai >= len(g.Params) {
+					continue
+				}
+				p := g.Params[ai]
+				pe := c.validatedEdges(g, p, base, depth+1)
+				good := true
+				for _, ret := range returnsOf(g) {
+					rv, has := returnedValue(ret, idx)
+					if !has {
+						continue
+					}
+					for _, ro := range origins(rv) {
+						if isNilConst(ro) && !guardedBy(g, ret.Block(), pe) {
+							good = false
+						}
+						if !isNilConst(ro) {
+							// an error value: fine; a forwarded error of another validator: accepted when it is the
+							// tested result of a validator of the same parameter
+							continue
+						}
+					}
+				}
+				if good && len(pe) > 0 {
+					okAll = true
+				}
+			}
+			if !okAll {
+				return false
+			}
+		}
+		return true
+	})...)
+	return out
+}
+
+// ---------------------------------------------------------------- ERR5
+
+// ERR5: on the failure path of one error, the error returned is not another error
+// variable that is known to be nil there. `if delErr := tx.Delete(k); delErr != nil {
+// return err }` - a rename that left the return behind - returns the `err` of the
+// statement before, which has just been tested and is nil: the store's failure comes
+// back as success, the caller commits, and a DropIndex that failed half-way is
+// acknowledged with half of the entries gone.
+func ruleERR5(c *Ctx) []Ob {
+	o := newObs(c, "ERR5")
+	n, bad := 0, 0
+	for _, fn := range c.LibFuncs {
+		res := fn.Signature.Results()
+		if res.Len() == 0 || !isErrorType(res.At(res.Len()-1).Type()) {
+			continue
+		}
+		ei := res.Len() - 1
+		k := 0
+		// the failure edges of fn: an error value found not to be nil
+		type fail struct {
+			ev ssa.Value
+			e  edge
+		}
+		var fails []fail
+		ifEdges(fn, func(cond ssa.Value, e edge) {
+			x, tnil, ok := nilTest(cond)
+			if !ok || !isErrorType(x.Type()) || e.Branch == tnil {
+				return
+			}
+			fails = append(fails, fail{x, e})
+		})
+		if len(fails) == 0 {
+			continue
+		}
+		for _, ret := range returnsOf(fn) {
+			rv, has := returnedValue(ret, ei)
+			if !has || isNilConst(rv) {
+				continue
+			}
+			for _, f := range fails {
+				if !guardedBy(fn, ret.Block(), []edge{f.e}) {
+					continue
+				}
+				n++
+				if rv == f.ev || sameOrigin(rv, f.ev) {
+					continue
+				}
+				// another error value: known to be nil here?
+				if guardedBy(fn, ret.Block(), nilEdges(fn, sameValue(rv))) {
+					k++
+					bad++
+					o.add(VIOLATED, fmt.Sprintf("%s/the failure of one call is not answered with another, nil, error #%d", c.fname(fn), k), relPath(c, ret.Pos()), "on the path where %s is not nil the function returns %s, which has been tested before and is nil on this path: the failure is reported as success - a store error while DropIndex deletes the entries of an index comes back as nil, the catalog is rewritten and the transaction committed with part of the entries gone", describeValue(c, f.ev), describeValue(c, rv))
+				}
+			}
+		}
+	}
+	if bad == 0 {
+		o.add(OK, "library/failure paths return their own error", "-", "%d returns on failure paths inspected: none returns another error variable known to be nil there", n)
+	}
+	return o.list
+}
+
+// samePath: a and b are the same access path (loads of the same field of the same object, elements of the same
+// slice at the same index, the same parameter or local), compared structurally; two loads of a captured
+// variable are the same path.
+func samePath(a, b ssa.Value, depth int) bool {
+	if a == b {
+		return true
+	}
+	if a == nil || b == nil || depth > 6 {
+		return false
+	}
+	switch x := a.(type) {
+	case *ssa.UnOp:
+		y, ok := b.(*ssa.UnOp)
+		return ok && x.Op == y.Op && samePath(x.X, y.X, depth+1)
+	case *ssa.FieldAddr:
+		y, ok := b.(*ssa.FieldAddr)
+		return ok && x.Field == y.Field && samePath(x.X, y.X, depth+1)
+	case *ssa.Field:
+		y, ok := b.(*ssa.Field)
+		return ok && x.Field == y.Field && samePath(x.X, y.X, depth+1)
+	case *ssa.IndexAddr:
+		y, ok := b.(*ssa.IndexAddr)
+		return ok && samePath(x.X, y.X, depth+1) && samePath(x.Index, y.Index, depth+1)
+	case *ssa.FreeVar:
+		y, ok := b.(*ssa.FreeVar)
+		return ok && x == y
+	}
+	return false
+}
+
+// dominatingConds: the conditional edges of fn that lie on every path from the entry to block b (each If whose
+// one branch alone leads to b), as (condition, branch taken) pairs.
+func dominatingConds(fn *ssa.Function, b *ssa.BasicBlock) []struct {
+	cond   ssa.Value
+	branch bool
+} {
+	var out []struct {
+		cond   ssa.Value
+		branch bool
+	}
+	ifEdges(fn, func(cond ssa.Value, e edge) {
+		if guardedBy(fn, b, []edge{e}) {
+			out = append(out, struct {
+				cond   ssa.Value
+				branch bool
+			}{cond, e.Branch})
+		}
+	})
+	return out
+}
+
+// ---------------------------------------------------------------- CMP16
+
+// CMP16: a float is converted to an integer only where it is known to lie inside that
+// integer's range - strictly below 2^63 (2^64 for uint64) and not below -2^63 (above -1).
+// The conversion of an out-of-range float is implementation defined (MinInt64 on amd64):
+// `case v2 > math.MaxInt64` reads like the cleaner spelling of `v2 >= 1<<63`, but as a
+// float64 constant MaxInt64 IS 2^63, so the float 2^63 slips through, int64(2^63) wraps,
+// and almost every int64 compares greater than 2^63: the order stops being transitive.
+// The guards on the path (comparisons of the converted value with constants) are
+// evaluated exactly.
+func ruleCMP16(c *Ctx) []Ob {
+	o := newObs(c, "CMP16")
+	n := 0
+	var fns []*ssa.Function
+	for f := range c.comparatorFuncs() {
+		fns = append(fns, f)
+	}
+	sort.Slice(fns, func(i, j int) bool { return c.fname(fns[i]) < c.fname(fns[j]) })
+	two63 := new(big.Float).SetMantExp(big.NewFloat(1), 63)
+	two64 := new(big.Float).SetMantExp(big.NewFloat(1), 64)
+	for _, fn := range fns {
+		k := 0
+		for _, b := range fn.Blocks {
+			for _, in := range b.Instrs {
+				cv, ok := in.(*ssa.Convert)
+				if !ok {
+					continue
+				}
+				from, okF := cv.X.Type().Underlying().(*types.Basic)
+				to, okT := cv.Type().Underlying().(*types.Basic)
+				if !okF || !okT || from.Kind() != types.Float64 {
+					continue
+				}
+				var hi *big.Float // v must be < hi
+				var lo *big.Float // v must be >= lo   (loStrict: v > lo)
+				loStrict := false
+				switch to.Kind() {
+				case types.Int64, types.Int:
+					hi, lo = two63, new(big.Float).Neg(two63)
+				case types.Uint64, types.Uint:
+					hi, lo, loStrict = two64, big.NewFloat(-1), true
+				default:
+					continue
+				}
+				n++
+				k++
+				key := fmt.Sprintf("%s/a float is converted to an integer inside the integer's range #%d", c.fname(fn), k)
+				upOK, loOK := false, false
+				for _, dc := range dominatingConds(fn, b) {
+					bo, ok := dc.cond.(*ssa.BinOp)
+					if !ok {
+						continue
+					}
+					var kv *ssa.Const
+					var op token.Token
+					switch {
+					case bo.X == cv.X || sameOrigin(bo.X, cv.X):
+						kv, _ = bo.Y.(*ssa.Const)
+						op = bo.Op
+					case bo.Y == cv.X || sameOrigin(bo.Y, cv.X):
+						kv, _ = bo.X.(*ssa.Const)
+						// mirror the operator
+						switch bo.Op {
+						case token.LSS:
+							op = token.GTR
+						case token.LEQ:
+							op = token.GEQ
+						case token.GTR:
+							op = token.LSS
+						case token.GEQ:
+							op = token.LEQ
+						default:
+							op = bo.Op
+						}
+					}
+					if kv == nil || kv.Value == nil {
+						continue
+					}
+					f64, _ := constant.Float64Val(constant.ToFloat(kv.Value)) // the comparison happens in float64
+					K := big.NewFloat(f64)
+					// the fact that holds on the branch taken
+					if !dc.branch {
+						switch op {
+						case token.LSS:
+							op = token.GEQ
+						case token.LEQ:
+							op = token.GTR
+						case token.GTR:
+							op = token.LEQ
+						case token.GEQ:
+							op = token.LSS
+						default:
+							continue
+						}
+					}
+					switch op {
+					case token.LSS: // v < K
+						if K.Cmp(hi) <= 0 {
+							upOK = true
+						}
+					case token.LEQ: // v <= K
+						if K.Cmp(hi) < 0 {
+							upOK = true
+						}
+					case token.GEQ: // v >= K
+						if (!loStrict && K.Cmp(lo) >= 0) || (loStrict && K.Cmp(lo) > 0) {
+							loOK = true
+						}
+					case token.GTR: // v > K
+						if K.Cmp(lo) >= 0 {
+							loOK = true
+						}
+					}
+				}
+				switch {
+				case upOK && loOK:
+					o.add(OK, key, relPath(c, cv.Pos()), "on the path the float is known to be below %s and not below the lower end of the range", hi.Text('g', 20))
+				case !upOK:
+					o.add(VIOLATED, key, relPath(c, cv.Pos()), "nothing on the path keeps the float strictly below %s: the float %s itself reaches the conversion, whose result is implementation defined (MinInt64 on amd64) - `v > math.MaxInt64` does not exclude it, since as a float64 constant MaxInt64 is 2^63 - and almost every integer then compares greater than 2^63: the order is not transitive, an in-memory sort returns a sequence outside the total order", hi.Text('g', 20), hi.Text('g', 20))
+				default:
+					o.add(VIOLATED, key, relPath(c, cv.Pos()), "nothing on the path keeps the float from lying below the range of the integer it is converted to: the result of the conversion is implementation defined")
+				}
+			}
+		}
+	}
+	if n == 0 {
+		o.add(INFO, "comparator", "-", "the comparator converts no float to an integer")
+	}
+	return o.list
+}
+
+// ---------------------------------------------------------------- CMP17
+
+// CMP17: the comparator asks for the SIGN of a float with a comparison, not for its sign
+// BIT: math.Signbit(-0.0) is true although -0.0 is not below zero. With `case
+// math.Signbit(v2): return 1` in the unsigned branch, uint64(0) compares greater than
+// -0.0 while int64(0) and 0.0 compare equal to it (transitivity is lost, and every zero
+// has one index key).
+func ruleCMP17(c *Ctx) []Ob {
+	o := newObs(c, "CMP17")
+	n, bad := 0, 0
+	for fn := range c.comparatorFuncs() {
+		n++
+		allCalls(fn, func(ci ssa.CallInstruction) {
+			full := calleeFullName(ci)
+			if full != "math.Signbit" && full != "math.Copysign" {
+				return
+			}
+			bad++
+			o.add(VIOLATED, c.fname(fn)+"/the sign of a float is asked with a comparison", relPath(c, ci.Pos()), "%s looks at the sign bit, which -0.0 has although it is not below zero: uint64(0) compares greater than -0.0, while int64(0) and 0.0 compare equal to it - the order is not transitive, and Eq(-0.0) misses documents holding an unsigned zero that an index scan (all zeros share one key) returns", full)
+		})
+	}
+	if bad == 0 {
+		o.add(OK, "comparator/the sign of a float is asked with a comparison", "-", "%d comparator functions: none calls math.Signbit or math.Copysign", n)
+	}
+	return o.list
+}
+
+// ---------------------------------------------------------------- IDX12
+
+// IDX12: the position at which the catalog's list of indexes is rewritten was FOUND
+// equal to the field looked for. The variable that holds the position takes, on every
+// way into it, either a negative sentinel (not found) or a position assigned behind the
+// true edge of `list[pos].Field == field`. A backward scan `j := len-1; for j > 0 &&
+// list[j].Field != field { j-- }` never tests entry 0: dropping a field that has no
+// index ends at position 0 and removes the oldest sibling instead of answering
+// ErrIndexNotExist.
+func ruleIDX12(c *Ctx) []Ob {
+	o := newObs(c, "IDX12")
+	n := 0
+	for _, fn := range c.LibFuncs {
+		if c.pkgRel(fn) != "" || fn.Parent() != nil {
+			continue
+		}
+		// comparisons list[x].Field ==/!= param, with the index value x
+		type eq struct {
+			idx ssa.Value
+			e   edge // the edge on which the two are equal
+		}
+		var eqs []eq
+		var param ssa.Value
+		ifEdges(fn, func(cond ssa.Value, e edge) {
+			bo, ok := cond.(*ssa.BinOp)
+			if !ok || (bo.Op != token.EQL && bo.Op != token.NEQ) {
+				return
+			}
+			for _, pair := range [][2]ssa.Value{{bo.X, bo.Y}, {bo.Y, bo.X}} {
+				p, isP := pair[1].(*ssa.Parameter)
+				if !isP {
+					continue
+				}
+				ld, ok := pair[0].(*ssa.UnOp)
+				if !ok || ld.Op != token.MUL {
+					continue
+				}
+				fa, ok := ld.X.(*ssa.FieldAddr)
+				if !ok {
+					continue
+				}
+				if _, f, nm := fieldOfAddr(fa); f != "Field" || nm == nil || !c.libNamedIs(nm, "index", "Info") {
+					continue
+				}
+				ia, ok := fa.X.(*ssa.IndexAddr)
+				if !ok {
+					continue
+				}
+				if e.Branch == (bo.Op == token.EQL) {
+					eqs = append(eqs, eq{ia.Index, e})
+					param = p
+				}
+			}
+		})
+		if len(eqs) == 0 {
+			continue
+		}
+		// the positions at which the list is rewritten or read for the entry to drop (outside the search loop)
+		var victims []ssa.Value
+		for _, b := range fn.Blocks {
+			if c.inLoop(b) {
+				continue
+			}
+			for _, in := range b.Instrs {
+				st, ok := in.(*ssa.Store)
+				if !ok {
+					continue
+				}
+				if ia, ok := st.Addr.(*ssa.IndexAddr); ok {
+					if _, f, nn := fieldLoad(ia.X); f != "" && nn != nil {
+						if _, isK := ia.Index.(*ssa.Const); !isK {
+							victims = append(victims, ia.Index)
+						}
+					}
+				}
+			}
+		}
+		if len(victims) == 0 || param == nil {
+			continue
+		}
+		for vi, v := range victims {
+			if vi > 0 {
+				break // one position variable per function
+			}
+			n++
+			key := c.fname(fn) + "/the position rewritten was found equal to the field"
+			bad := ""
+			seen := map[ssa.Value]bool{}
+			var walk func(x ssa.Value, via *ssa.BasicBlock, d int)
+			walk = func(x ssa.Value, via *ssa.BasicBlock, d int) {
+				if x == nil || d > 8 || bad != "" {
+					return
+				}
+				// a position assigned behind an equality edge for that very position (the loop counter is a phi too)
+				for _, q := range eqs {
+					if (q.idx == x || sameOrigin(q.idx, x)) && via != nil && guardedBy(fn, via, []edge{q.e}) {
+						return
+					}
+				}
+				if phi, ok := x.(*ssa.Phi); ok {
+					if seen[phi] {
+						return
+					}
+					seen[phi] = true
+					for i, e := range phi.Edges {
+						walk(e, phi.Block().Preds[i], d+1)
+					}
+					return
+				}
+				if k, ok := constInt(x); ok {
+					if k < 0 {
+						return // the "not found" sentinel
+					}
+					bad = fmt.Sprintf("the constant %d", k)
+					return
+				}
+				// a position: assigned behind an equality edge for that very position?
+				for _, q := range eqs {
+					if (q.idx == x || sameOrigin(q.idx, x)) && via != nil && guardedBy(fn, via, []edge{q.e}) {
+						return
+					}
+				}
+				bad = "a position that has not been compared (" + describeValue(c, x) + ")"
+			}
+			walk(v, nil, 0)
+			if _, isPhi := v.(*ssa.Phi); !isPhi {
+				// a plain value: the rewrite itself must sit behind the equality
+				bad = ""
+				okG := false
+				for _, q := range eqs {
+					if q.idx == v || sameOrigin(q.idx, v) {
+						okG = true
+					}
+				}
+				if !okG {
+					bad = "a position that has not been compared"
+				}
+			}
+			if bad == "" {
+				o.add(OK, key, relPath(c, fn.Pos()), "every way into the position variable is the negative sentinel or a position found equal to the field")
+			} else {
+				o.add(VIOLATED, key, relPath(c, fn.Pos()), "the position at which the catalog's list is rewritten can be %s, without that entry having been found equal to the field looked for: a search that never tests entry 0 (`for j > 0 && list[j].Field != field`) ends there for a field that has no index - DropIndex answers nil instead of ErrIndexNotExist and removes the oldest sibling index from the catalog, whose entries stay behind unmaintained", bad)
+			}
+		}
+	}
+	if n == 0 {
+		o.add(INFO, "catalog", "-", "no function rewrites the list of index descriptions at a searched position")
 	}
 	return o.list
 }
